@@ -1,6 +1,7 @@
 import Tumfl.Theory.FormatTextG
 import Tumfl.Theory.ReadSimTCG
 import Tumfl.Theory.EmitI
+import Tumfl.Theory.FormatTotal
 import Tumfl.Props.Format
 import Tumfl.Inst.Styles
 /-!
@@ -79,6 +80,27 @@ theorem C02_minified_style (src out : List Char) (b : Block) (hs : List Hint)
     (hcr : NoCR src) (hp : parseText src = .ok (b, hs)) (hf : formatI minifiedStyle b = .ok out) :
     ∃ c c', Spec.Accepts src c ∧ Spec.Accepts out c' ∧ normS c = normS c' :=
   C02_same_program_final src out b hs minifiedStyle hcr hp minifiedStyle_doc rfl hf
+
+/-- **C08, first clause**: formatting never raises and always returns - for EVERY style record (documented or not) and every printable tree; in particular for
+whatever `parse` returns.  (The model passes are total functions into `Except`, modelling `IndexError` / `AssertionError` explicitly; every internal
+loop fuel is shown sufficient: bracket reflow on well-nested lists, block spacing on any list, the `\z` wrapping loop by `C08_wrap_progress`.) -/
+theorem C08_format_total (sty : Style) (b : Block) (hp : Printable b) : ∃ text, formatI sty b = .ok text :=
+  formatI_total sty b hp
+
+theorem C08_format_total_parsed (sty : Style) (src : List Char) (b : Block) (hs : List Hint) (h : parseText src = .ok (b, hs)) :
+    ∃ text, formatI sty b = .ok text :=
+  formatI_total_parsed sty src b hs h
+
+/-- **C01 / C08 in one statement, no hypothesis about `format`**: for every CR-free source that `parse` accepts and every documented style (comments off,
+or no comment with a blank directly before an inner line break), `format` returns a text, and that text is a valid chunk with the source's reference tree
+up to `normS`. -/
+theorem C01_format_parse (src : List Char) (b : Block) (hs : List Hint) (sty : Style)
+    (hcr : NoCR src) (hp : parseText src = .ok (b, hs)) (hd : DocStyle sty)
+    (hcm : sty.includeComments = false ∨ ∀ c ∈ commentsBlock b, ∀ t, commentPiece sty c = .str t → Tidy t) :
+    ∃ out c c', formatI sty b = .ok out ∧ Spec.Accepts src c ∧ Spec.Accepts out c' ∧ normS c = normS c' := by
+  obtain ⟨out, hf⟩ := formatI_total_parsed sty src b hs hp
+  obtain ⟨c, c', h1, h2, h3⟩ := C01_same_program src out b hs sty hcr hp hd hcm hf
+  exact ⟨out, c, c', hf, h1, h2, h3⟩
 
 /-- the repaired emitter coincides with the old one on what `parse` returns -/
 theorem EmitI_eq_emit_parsed (src : List Char) (b : Block) (hs : List Hint) (sty : Style) (hp : parseText src = .ok (b, hs)) :
